@@ -1043,10 +1043,13 @@ impl Drop for IoUring {
                 self.submission_queue.ring_ptr,
                 NonZeroUsize::new(self.submission_queue.ring_size).unwrap(),
             );
-            let _ = munmap(
-                self.completion_queue.ring_ptr,
-                NonZeroUsize::new(self.completion_queue.ring_size).unwrap(),
-            );
+            // With `IORING_FEAT_SINGLE_MMAP` both rings live in one mapping, which was released above
+            if self.completion_queue.ring_ptr != self.submission_queue.ring_ptr {
+                let _ = munmap(
+                    self.completion_queue.ring_ptr,
+                    NonZeroUsize::new(self.completion_queue.ring_size).unwrap(),
+                );
+            }
         }
         let _ = crate::unistd::close(self.fd);
     }
